@@ -725,4 +725,83 @@ theorem parseLoop_time (e : Env) {v : Str} {i : Nat} (H M S F : Nat) (o : Option
     parseDigits_ok e hH h, skip_ok h1, parseDigits_ok e hM h2, skip_ok h3,
     parseDigits_ok e hS h4, parseFrac_fracStr e hF hoff h5, parseOffset_format e o ho h6]
 
+/-! ### dates -/
+
+/-- the year as printed by `format_date` -/
+def yearStr (year : Int) : Str :=
+  if year < 0 then '-' :: zpad year.natAbs 4 else zpad year.natAbs 4
+
+theorem formatDate_eq (year : Int) (m d : Nat) :
+    formatDate year m d = yearStr year ++ '-' :: (zpad m 2 ++ '-' :: zpad d 2) := by
+  unfold formatDate yearStr
+  by_cases hy : year < 0
+  · have e1 : -year = ((year.natAbs : Nat) : Int) := by omega
+    simp only [hy, if_true, e1, zpadInt_ofNat]
+    simp
+  · have e1 : year = ((year.natAbs : Nat) : Int) := by omega
+    simp only [hy, if_false]
+    rw [e1]
+    simp only [zpadInt_ofNat, Int.natAbs_natCast]
+    simp
+
+theorem parseYear_format (e : Env) {v : Str} {i : Nat} (year : Int) (r : Str)
+    (hr : NoDigitHead e r) (h : Sfx v i (yearStr year ++ r)) :
+    parseYear e ⟨v, i⟩ = some (year, ⟨v, i + (yearStr year).length⟩) := by
+  unfold yearStr at h ⊢
+  by_cases hy : year < 0
+  · simp only [hy, if_true] at h ⊢
+    have e1 : year = -((year.natAbs : Nat) : Int) := by omega
+    rw [parseYear_neg e hr (by simpa using h)]
+    simp only [List.length_cons]
+    rw [← e1]
+    congr 3; omega
+  · simp only [hy, if_false] at h ⊢
+    have e1 : year = ((year.natAbs : Nat) : Int) := by omega
+    rw [parseYear_nonneg e hr h, ← e1]
+
+/-- the `%Y-%m-%d` prefix of a format string, on a printed date followed by `r` -/
+theorem parseLoop_datePart (e : Env) {v : Str} {i : Nat} (restFmt : Str) (year : Int) (m d : Nat)
+    (r : Str) (hm : m < 100) (hd : d < 100) (h : Sfx v i (formatDate year m d ++ r)) :
+    ∃ j, Sfx v j r ∧
+      parseLoop e ('%' :: 'Y' :: '-' :: '%' :: 'm' :: '-' :: '%' :: 'd' :: restFmt) ⟨v, i⟩ =
+        (parseLoop e restFmt ⟨v, j⟩).map
+          ([some year, some (m : Int), some (d : Int)] ++ ·) := by
+  rw [formatDate_eq] at h
+  simp only [List.append_assoc, List.cons_append] at h
+  have h1 := h.adv
+  have h2 := h1.adv1
+  have h3 := h2.adv_zpad2 hm
+  have h4 := h3.adv1
+  have h5 := h4.adv_zpad2 hd
+  refine ⟨_, h5, ?_⟩
+  simp [parseLoop, parseVar_Y, parseVar_m, parseVar_d,
+    parseYear_format e year _ (noDigitHead_dash e _) h, skip_ok h1, parseDigits_ok e hm h2,
+    skip_ok h3, parseDigits_ok e hd h4]
+  cases parseLoop e restFmt ⟨v, _⟩ <;> simp
+
+theorem parseLoop_date (e : Env) {v : Str} {i : Nat} (year : Int) (m d : Nat) (o : Option Int)
+    (hm : m < 100) (hd : d < 100) (ho : ∀ x, o = some x → -6000 < x ∧ x < 6000)
+    (h : Sfx v i (formatDate year m d ++ formatOffset o)) :
+    parseLoop e Tables.fmtDate ⟨v, i⟩ = some [some year, some (m : Int), some (d : Int), o] := by
+  obtain ⟨j, hj, hp⟩ := parseLoop_datePart e ['%', 'z'] year m d _ hm hd h
+  have hf : Tables.fmtDate = '%' :: 'Y' :: '-' :: '%' :: 'm' :: '-' :: '%' :: 'd' :: ['%', 'z'] := rfl
+  rw [hf, hp]
+  simp [parseLoop, parseVar_z, parseOffset_format e o ho hj]
+
+theorem parseLoop_dateTime (e : Env) {v : Str} {i : Nat} (year : Int) (m d H M S F : Nat)
+    (o : Option Int) (hm : m < 100) (hd : d < 100)
+    (hH : H < 100) (hM : M < 100) (hS : S < 100) (hF : F ≤ 999999999)
+    (ho : ∀ x, o = some x → -6000 < x ∧ x < 6000)
+    (h : Sfx v i (formatDate year m d ++ ['T'] ++ formatTime H M S F ++ formatOffset o)) :
+    parseLoop e Tables.fmtDateTime ⟨v, i⟩ =
+      some [some year, some (m : Int), some (d : Int),
+        some (H : Int), some (M : Int), some (S : Int), some (F : Int), o] := by
+  simp only [List.append_assoc, List.cons_append, List.nil_append] at h
+  obtain ⟨j, hj, hp⟩ := parseLoop_datePart e ('T' :: Tables.fmtTime) year m d _ hm hd h
+  have hf : Tables.fmtDateTime =
+      '%' :: 'Y' :: '-' :: '%' :: 'm' :: '-' :: '%' :: 'd' :: 'T' :: Tables.fmtTime := rfl
+  have ht := parseLoop_time e H M S F o hH hM hS hF ho hj.adv1
+  rw [hf, hp]
+  simp [parseLoop, skip_ok hj, ht]
+
 end Proofs.DatesFormatParse
